@@ -26,7 +26,9 @@ def run(c, prog, ctx):
     b = f.body
 
     # ---- R1
-    ev = events(b, lambda t: re.search(r"Prevouts::<'_, T>::(get_all|get|check_all)$|SighashCache::<R>::(taproot_cache|common_cache|segwit_cache)$", callee_name(t)) is not None)
+    # the cache accessor is looked into as well: a get_all moved inside it is still a get_all of this query
+    ev = events(b, lambda t: re.search(r"Prevouts::<'_, T>::(get_all|get|check_all)$|SighashCache::<R>::(taproot_cache|common_cache|segwit_cache)$", callee_name(t)) is not None,
+                inline=r"SighashCache::<R>::taproot_cache$")
     n_all = 0
     for e in ev:
         cd = cond_desc(b, e["conds"])
@@ -37,6 +39,11 @@ def run(c, prog, ctx):
                    "%s is used on a path where anyone_can_pay may be true: with Prevouts::One the query fails with PrevoutKind "
                    "although ANYONECANPAY only needs the prevout of the signed input; guards %s" % (nm, cd), f.where(e["t"]["sp"]), f.path)
             if nm == "get_all":
+                # "a single spent output for a type that needs all of them is reported as an error" holds for every query, whatever
+                # was asked before: besides anyone_can_pay == false (and `?` edges) nothing decides whether get_all runs
+                other = [(d, l) for d, l in cond_desc(b, e["conds"]) if d != ACP]
+                c.inst("R1.get_all-on-every-query", "get_all#%d" % n_all, not other,
+                       "whether get_all (and with it the PrevoutKind error) is evaluated depends on %s" % other, f.where(e["t"]["sp"]), f.path)
                 te = try_edges_after(b, e["bb"])
                 c.inst("R1.get_all-error-propagates", "get_all#%d" % n_all, bool(te and te[1] is not None),
                        "PrevoutKind from get_all is not propagated", f.where(e["t"]["sp"]), f.path)
